@@ -514,7 +514,6 @@ impl<'m> MCTPSMBusContext<'m> {
                     let len;
 
                     match header.command_code().into() {
-                        CommandCode::Reserved => unreachable!(),
                         CommandCode::SetEndpointID => {
                             if payload[0] == MCTPSetEndpointIDOperations::SetEID as u8
                                 || payload[0] == MCTPSetEndpointIDOperations::ForceEID as u8
@@ -531,11 +530,9 @@ impl<'m> MCTPSMBusContext<'m> {
                                         response_buf,
                                     )
                                     .unwrap();
-                            } else if payload[0] == MCTPSetEndpointIDOperations::ResetEID as u8 {
-                                unimplemented!()
-                            } else if payload[0]
-                                == MCTPSetEndpointIDOperations::SetDiscoveredFlag as u8
-                            {
+                            } else {
+                                // Reset EID, Set Discovered Flag and unknown
+                                // operations are not supported
                                 len = self
                                     .get_response()
                                     .set_endpoint_id(
@@ -546,8 +543,6 @@ impl<'m> MCTPSMBusContext<'m> {
                                         response_buf,
                                     )
                                     .unwrap();
-                            } else {
-                                unreachable!()
                             }
                         }
                         CommandCode::GetEndpointID => {
@@ -596,74 +591,79 @@ impl<'m> MCTPSMBusContext<'m> {
                                 .unwrap();
                         }
                         CommandCode::GetVendorDefinedMessageSupport => {
-                            if (payload[0] + 1) == self.vendor_ids.len() as u8 {
-                                // Set the Vendor ID Set Selector as the end
-                                self.vendor_id_selector.set(0xFF);
+                            if payload[0] as usize >= self.vendor_ids.len() {
+                                // There is no Vendor ID set with this selector
+                                len = self
+                                    .get_response()
+                                    .get_vendor_defined_message_support(
+                                        CompletionCode::ErrorInvalidData,
+                                        base_header.source_endpoint_id(),
+                                        0xFF,
+                                        &[],
+                                        response_buf,
+                                    )
+                                    .unwrap();
                             } else {
-                                // Set the Vendor ID Set Selector from the request
-                                self.vendor_id_selector.set(payload[0] + 1);
+                                if (payload[0] + 1) == self.vendor_ids.len() as u8 {
+                                    // Set the Vendor ID Set Selector as the end
+                                    self.vendor_id_selector.set(0xFF);
+                                } else {
+                                    // Set the Vendor ID Set Selector from the request
+                                    self.vendor_id_selector.set(payload[0] + 1);
+                                }
+
+                                let vendor_id = &self.vendor_ids[payload[0] as usize];
+                                if vendor_id.format == 0 {
+                                    let vendor_data = [
+                                        vendor_id.format,
+                                        (vendor_id.data >> 8) as u8,
+                                        vendor_id.data as u8,
+                                        (vendor_id.numeric_value >> 8) as u8,
+                                        vendor_id.numeric_value as u8,
+                                    ];
+
+                                    len = self
+                                        .get_response()
+                                        .get_vendor_defined_message_support(
+                                            CompletionCode::Success,
+                                            base_header.source_endpoint_id(),
+                                            self.vendor_id_selector.get(),
+                                            &vendor_data,
+                                            response_buf,
+                                        )
+                                        .unwrap();
+                                } else if vendor_id.format == 1 {
+                                    let vendor_data = [
+                                        vendor_id.format,
+                                        (vendor_id.data >> 24) as u8,
+                                        (vendor_id.data >> 16) as u8,
+                                        (vendor_id.data >> 8) as u8,
+                                        vendor_id.data as u8,
+                                        (vendor_id.numeric_value >> 8) as u8,
+                                        vendor_id.numeric_value as u8,
+                                    ];
+
+                                    len = self
+                                        .get_response()
+                                        .get_vendor_defined_message_support(
+                                            CompletionCode::Success,
+                                            base_header.source_endpoint_id(),
+                                            self.vendor_id_selector.get(),
+                                            &vendor_data,
+                                            response_buf,
+                                        )
+                                        .unwrap();
+                                } else {
+                                    unreachable!()
+                                };
                             }
-
-                            let vendor_id = &self.vendor_ids[payload[0] as usize];
-                            if vendor_id.format == 0 {
-                                let vendor_data = [
-                                    vendor_id.format,
-                                    (vendor_id.data >> 8) as u8,
-                                    vendor_id.data as u8,
-                                    (vendor_id.numeric_value >> 8) as u8,
-                                    vendor_id.numeric_value as u8,
-                                ];
-
-                                len = self
-                                    .get_response()
-                                    .get_vendor_defined_message_support(
-                                        CompletionCode::Success,
-                                        base_header.source_endpoint_id(),
-                                        self.vendor_id_selector.get(),
-                                        &vendor_data,
-                                        response_buf,
-                                    )
-                                    .unwrap();
-                            } else if vendor_id.format == 1 {
-                                let vendor_data = [
-                                    vendor_id.format,
-                                    (vendor_id.data >> 24) as u8,
-                                    (vendor_id.data >> 16) as u8,
-                                    (vendor_id.data >> 8) as u8,
-                                    vendor_id.data as u8,
-                                    (vendor_id.numeric_value >> 8) as u8,
-                                    vendor_id.numeric_value as u8,
-                                ];
-
-                                len = self
-                                    .get_response()
-                                    .get_vendor_defined_message_support(
-                                        CompletionCode::Success,
-                                        base_header.source_endpoint_id(),
-                                        self.vendor_id_selector.get(),
-                                        &vendor_data,
-                                        response_buf,
-                                    )
-                                    .unwrap();
-                            } else {
-                                unreachable!()
-                            };
                         }
-                        CommandCode::ResolveEndpointID => unimplemented!(),
-                        CommandCode::AllocateEndpointIDs => unimplemented!(),
-                        CommandCode::RoutingInformationUpdate => unimplemented!(),
-                        CommandCode::GetRoutingTableEntries => unimplemented!(),
-                        CommandCode::PrepareForEndpointDiscovery => unimplemented!(),
-                        CommandCode::EndpointDiscovery => unimplemented!(),
-                        CommandCode::DiscoveryNotify => unimplemented!(),
-                        CommandCode::GetNetworkID => unimplemented!(),
-                        CommandCode::QueryHop => unimplemented!(),
-                        CommandCode::ResolveUUID => unimplemented!(),
-                        CommandCode::QueryRateLimit => unimplemented!(),
-                        CommandCode::RequestTXRateLimit => unimplemented!(),
-                        CommandCode::UpdateRateLimit => unimplemented!(),
-                        CommandCode::QuerySupportedInterfaces => unimplemented!(),
-                        _ => unimplemented!(),
+                        _ => {
+                            // We don't know how to answer this command. The
+                            // request is still decoded so the caller can
+                            // generate a response.
+                            return Ok(((msg_type, payload), None));
+                        }
                     }
 
                     return Ok(((msg_type, payload), Some(len)));
